@@ -182,7 +182,58 @@ func sigOracle(r *Result, cl *cluster, m *member, lastAnchor map[int]int) {
 	}
 }
 
+// c09Growth: a network that starts with a single validator and grows by successive joins: the
+// anchor must at every moment carry valid signatures of more than a third of the validators of
+// its round, whatever thresholds were computed for the smaller sets before.
+func c09Growth(r *Result, rng *rand.Rand) {
+	cl := newCluster(rng, 1, 10000, nil)
+	defer cl.close()
+	lastAnchor := map[int]int{}
+	m0 := cl.members[0]
+	step := func() {
+		act := cl.activeMembers()
+		if len(act) == 1 {
+			cl.submit(m0, cl.newTx())
+			guarded(func() error { return m0.core.AddSelfEvent("") })
+			guarded(func() error { return m0.core.ProcessSigPool() })
+		} else {
+			a, b := act[rng.Intn(len(act))], act[rng.Intn(len(act))]
+			if a != b {
+				if rng.Intn(2) == 0 {
+					cl.submit(a, cl.newTx())
+				}
+				cl.pull(a, b, -1)
+			}
+		}
+		cl.activateJoiners()
+		for _, m := range cl.activeMembers() {
+			sigOracle(r, cl, m, lastAnchor)
+		}
+	}
+	for k := 0; k < 12; k++ {
+		step()
+	}
+	for j := 0; j < 2+rng.Intn(2); j++ {
+		cl.startJoin(m0)
+		for k := 0; k < 150; k++ {
+			step()
+		}
+	}
+	r.Inc("growth_runs_from_a_single_validator", 1)
+	r.Inc("growth_run_final_validators", len(cl.activeMembers()))
+}
+
 func runC09(r *Result, thorough bool) {
+	defer func() {
+		rng := rand.New(rand.NewSource(r.Seed + 99))
+		k := 1
+		if thorough {
+			k = 5
+		}
+		for i := 0; i < k; i++ {
+			c09Growth(r, rng)
+		}
+	}()
 	r.Rule = "G2 runs of real cores (3-5 validators, joins and leaves) with adversarial signature pools injected into members: signatures over other bodies, by non-validators (strangers, not-yet-effective joiners, removed validators), duplicates, unknown / future / negative block indexes, malformed encodings, and sweeps in which the joiner and the leaver sign every block a node holds; " +
 		"every ProcessSigPool run vs the Lean model (recorded signer sets per block, anchor, remaining pool); oracle after every step: each recorded signature re-verified with the real Verify against the node's own body and round set, anchor > n/3 valid distinct signers and monotone, own signature only on delivered blocks. non-trivial: a run where >=1 signature was recorded and >=1 refused"
 	rng := rand.New(rand.NewSource(r.Seed))
